@@ -183,7 +183,10 @@ func (p *Processor) ChargingDataCreate(
 	if !chargingData.OneTimeEvent {
 		// the record sequence number is unique; keep it a separate, final component so that
 		// no two sessions can render the same reference
-		chargingSessionId = ueId + "-" + consumerId + "-" + strconv.Itoa(int(self.LocalRecordSequenceNumber))
+		self.Lock()
+		recordSeq := self.LocalRecordSequenceNumber
+		self.Unlock()
+		chargingSessionId = ueId + "-" + consumerId + "-" + strconv.Itoa(int(recordSeq))
 	}
 	cdr, err := p.OpenCDR(chargingData, ue, chargingSessionId, false)
 	if err != nil {
